@@ -1379,6 +1379,7 @@ Proof.
     eapply Mx_eq; [apply (Mx_emit0 OpIndex c2 (d + 1 + 1) 2 1 (Mx_ok _ _ _ _ R2)); try reflexivity; lia|lia].
   - (* ECall *)
     apply compile_call_inv in H. destruct H as (c1 & name & E1 & Es & ->). clear Es.
+    apply andb_true_iff in Hm. destruct Hm as (_ & Hm).
     pose proof (IHl g args c c1 d Hc E1 Hm) as R1.
     pose proof (Mx_const (VStr name) c1 (d + lenN args) (Mx_ok _ _ _ _ R1)) as R2.
     eapply Mx_trans; [exact Hc|exact R1|]. eapply Mx_trans; [exact (Mx_ok _ _ _ _ R1)|exact R2|].
